@@ -115,7 +115,9 @@ DeliverSim ==
      \E hb \in {RandomElement(1..8)} :
         IF hb <= 2 /\ ~HeadersFirst THEN DeliverHeader(b)
         ELSE IF hb = 3 /\ ~HeadersFirst /\ Height(b) >= 2
-             THEN (\E k \in {RandomElement(2..(IF Height(b) >= 3 THEN 3 ELSE 2))} : DeliverHeaders(b, k))
+             THEN (\E k \in {RandomElement(2..(IF Height(b) >= 3 THEN 3 ELSE 2))} :
+                   \E sh \in {IF RandomElement(1..2) = 1 THEN n.hhead ELSE RandomElement(n.hdrs)} :      \* the caller's sync head
+                     DeliverHeadersFrom(b, k, sh))
         ELSE DeliverBlock(b)
 SimNext == \/ MintSim
            \/ (AllMinted /\ DeliverSim)
@@ -140,6 +142,8 @@ SimNext == \/ MintSim
 MCSimSpec == Init /\ TrunkStored /\ hist = <<>> /\ [][SimNext /\ hist' = IF last'.k \in {"ProcessHeader", "ProcessBlock", "Reopen", "SyncHeaders", "Compact", "ResetHead", "Probe", "QueryTx"}
                      THEN Append(hist, [k |-> last'.k, b |-> last'.b, res |-> last'.res, proj |-> Proj(n'),
                                         cnt |-> IF last'.k = "SyncHeaders" THEN last'.cnt ELSE 0,
+                                        sh |-> IF last'.k = "SyncHeaders" THEN last'.sh ELSE 0,
+                                        ret |-> IF last'.k = "SyncHeaders" THEN last'.ret ELSE "-",
                                         uat |-> IF last'.k = "Probe" THEN UnspentAt(last'.b) ELSE {},
                                         notes |-> IF last'.k = "ProcessBlock" THEN last'.notes ELSE <<>>,
                                         tx |-> IF last'.k = "QueryTx" THEN last'.tx ELSE NoTx])
@@ -155,6 +159,8 @@ MCNext == /\ Next
           /\ hist' = IF last'.k \in {"ProcessHeader", "ProcessBlock", "Reopen", "SyncHeaders", "Compact", "ResetHead", "Probe", "QueryTx"}
                      THEN Append(hist, [k |-> last'.k, b |-> last'.b, res |-> last'.res, proj |-> Proj(n'),
                                         cnt |-> IF last'.k = "SyncHeaders" THEN last'.cnt ELSE 0,
+                                        sh |-> IF last'.k = "SyncHeaders" THEN last'.sh ELSE 0,
+                                        ret |-> IF last'.k = "SyncHeaders" THEN last'.ret ELSE "-",
                                         uat |-> IF last'.k = "Probe" THEN UnspentAt(last'.b) ELSE {},
                                         notes |-> IF last'.k = "ProcessBlock" THEN last'.notes ELSE <<>>,
                                         tx |-> IF last'.k = "QueryTx" THEN last'.tx ELSE NoTx])
